@@ -95,7 +95,7 @@ def connect(srv, sc, **kw):
         import ssl
         return manager.connect_tls(host='127.0.0.1', port=srv.port, certfile=os.path.join(CERT_DIR, 'test.pem'),
                                    keyfile=os.path.join(CERT_DIR, 'test.key'), ca_certs=sc.get('ca_certs') or pki()['ca'],
-                                   protocol=ssl.PROTOCOL_TLS_CLIENT, check_hostname=sc.get('check_hostname', True),
+                                   protocol=getattr(ssl, sc.get('protocol', 'PROTOCOL_TLS_CLIENT')), check_hostname=sc.get('check_hostname', True),
                                    server_hostname=sc.get('server_hostname'), device_params=dp, **kw)
     if tr == 'ssh':
         return srv.connect(password=sc.get('password', 'pw'), device_params=dp, **kw)
@@ -141,6 +141,12 @@ def run_traffic(sc):
     def _emit(srv, texts):
         data = b''.join(srv.frame(t) for t in texts)
         segs = cut(rng, data, seg)
+        if seg == 'paced' and len(data) > 10:
+            # a long message whose LAST read also carries the beginning (or all) of the next message
+            k = max(1, min(len(data) - 1, int(len(data) * 0.55)))
+            srv.do_actions([('raw', data[:k]), ('sleep', 0.08), ('raw', data[k:])])
+            state['sent_bytes'] += len(data)
+            return
         if fault and fault['kind'] == 'close-at-offset':
             left = fault['offset'] - state['sent_bytes']
             out = []
@@ -173,10 +179,10 @@ def run_traffic(sc):
             mid = FS.msg_id_of(req)
             tag = re.search(r'<(?:\w+:)?tag>([^<]*)</', req)
             texts.append('<rpc-reply message-id="%s" xmlns="%s"><data><tag>%s</tag><pad>%s</pad></data></rpc-reply>' % (
-                mid, FS.BASE_NS, tag.group(1) if tag else '?', 'é' * rng.choice([0, 1, 50, 3000])))
-            if state['notifs_sent'] < n_notifs and rng.random() < 0.7:
+                mid, FS.BASE_NS, tag.group(1) if tag else '?', 'é' * (sc['pad'] if 'pad' in sc else rng.choice([0, 1, 50, 3000]))))
+            if state['notifs_sent'] < n_notifs and (rng.random() < 0.7 or sc.get('notif_after_reply')):
                 state['notifs_sent'] += 1
-                texts.insert(rng.randint(0, len(texts)), notif_text(state['notifs_sent']))
+                texts.insert(len(texts) if sc.get('notif_after_reply') else rng.randint(0, len(texts)), notif_text(state['notifs_sent']))
         emit(srv, texts)
 
     def handler(srv, req):
@@ -210,12 +216,30 @@ def run_traffic(sc):
         res['connect'] = 'ok'
         m.timeout = timeout
         sess = m._session
+        start_barrier = None
+        if sc.get('first_race'):
+            # widen the window between "is there a reply listener yet?" and "install one": several threads issue the FIRST
+            # requests of the session at the same instant (public method wrapped on the instance; the lookup itself is unchanged)
+            orig_get = sess.get_listener_instance
+
+            def slow_get(cls):
+                r = orig_get(cls)
+                if r is None:
+                    time.sleep(0.05)
+                return r
+            sess.get_listener_instance = slow_get
+            start_barrier = threading.Barrier(threads)
         fl = threading.Thread(target=flusher, daemon=True)
         fl.start()
         calls = []
         clock = threading.Lock()
 
         def worker(ti):
+            if start_barrier is not None:
+                try:
+                    start_barrier.wait(2)
+                except Exception:
+                    pass
             for j in range(per_thread):
                 tag = 'T%d-%d' % (ti, j)
                 node = new_ele('probe')
@@ -237,6 +261,17 @@ def run_traffic(sc):
             t.join(timeout * per_thread + 10)
         res['hung_threads'] = sum(1 for t in ths if t.is_alive())
         res['calls'] = calls
+        if sc.get('notifs_then_close'):
+            k = sc['notifs_then_close']
+            texts = [notif_text(state['notifs_sent'] + i + 1) for i in range(k)]
+            state['notifs_sent'] += k
+            emit(srv, texts)
+            time.sleep(0.05)
+            srv.close()
+            t_end = time.time() + 3
+            while m.connected and time.time() < t_end:
+                time.sleep(0.01)
+            res['disconnected_before_take'] = not m.connected
         # drain notifications
         want = state['notifs_sent']
         for _ in range(want + 2):
@@ -346,6 +381,28 @@ def run_lifecycle(sc):
         finally:
             srv.cleanup()
         return res
+    if mode == 'failed-auth':
+        # SSH only: wrong credentials -> AuthenticationError; the half-open SSH transport must be released
+        def pthreads():
+            return [t for t in threading.enumerate() if t.is_alive() and type(t).__module__.startswith('paramiko')]
+        base = len(pthreads())
+        srv = make_server(sc, None)
+        try:
+            st, val, dt = FS.run_with_timeout(lambda: connect(srv, dict(sc, password='wrong'), timeout=3), 8)
+            res['connect'] = st if st != 'exc' else 'exc:' + exc_name(val)
+            deadline = time.time() + 2.5
+            while time.time() < deadline and srv.transport.is_active():
+                time.sleep(0.02)
+            res['server_sees_closed'] = not srv.transport.is_active()
+            res['auth_attempts'] = len(srv.auth_attempts)
+            res['subsystem_requests'] = len(srv.subsystem_requests)
+        finally:
+            srv.cleanup()
+        deadline = time.time() + 2.0
+        while time.time() < deadline and len(pthreads()) > base:
+            time.sleep(0.02)
+        res['leaked_threads'] = max(0, len(pthreads()) - base)
+        return res
     if mode == 'cycles':
         n = sc.get('n', 5)
         fds0 = nfds()
@@ -425,6 +482,13 @@ def run_lifecycle(sc):
                     with m:
                         raise KeyError('body failed')
                 except KeyError:
+                    res['body_exception_propagated'] = True
+            elif how == 'with-transport-error':
+                # the body fails with a TransportError that has nothing to do with THIS session (e.g. a nested connect elsewhere)
+                try:
+                    with m:
+                        raise TransportError('another connection failed')
+                except TransportError:
                     res['body_exception_propagated'] = True
             res['close'] = 'ok'
         except Exception as e:
